@@ -1,0 +1,337 @@
+//! Verification hooks (compiled only with `--cfg memcrs_verif`).
+//!
+//! Nothing in here changes behaviour: every entry point is inert unless an
+//! external harness installs a callback with [`set_hook`].  The hooks give a
+//! harness (a) a *yield point* in front of every access to shared state (the
+//! key/value map and the atomic counters), so that it can run several real
+//! threads under a deterministic scheduler, (b) a probe telling whether the
+//! access about to be made would block on a shard lock held by a parked
+//! thread, (c) a registry of live map guards, and (d) plain notifications of
+//! connection level events (socket reads, permits).
+use dashmap::iter::Iter;
+use dashmap::mapref::entry::Entry;
+use dashmap::mapref::one::{Ref, RefMut};
+use dashmap::{DashMap, ReadOnlyView};
+use std::cell::Cell;
+use std::hash::Hash;
+use std::ops::{Deref, DerefMut};
+use std::sync::atomic::{AtomicI64, AtomicU64, Ordering};
+use std::sync::{Arc, RwLock};
+
+/// What a hook callback is told.
+pub struct Event<'a> {
+    /// `true`: the thread is about to access shared state (yield point);
+    /// `false`: a plain notification.
+    pub pre: bool,
+    /// Name of the site, e.g. `map.get_mut`, `cas_id.fetch_add`, `conn.read`.
+    pub site: &'static str,
+    /// Key the access is addressed to, if any.
+    pub key: Option<&'a [u8]>,
+    /// Site specific numbers.
+    pub nums: [u64; 4],
+    /// Global sequence number of the event.
+    pub seq: u64,
+    /// Would the access block right now (shard lock held by somebody else)?
+    pub would_block: &'a dyn Fn() -> bool,
+}
+
+pub type Hook = dyn Fn(&Event) + Send + Sync;
+
+static HOOK: RwLock<Option<Arc<Hook>>> = RwLock::new(None);
+static SEQ: AtomicU64 = AtomicU64::new(0);
+/// Guards (references into the map) alive in the whole process.
+static READ_GUARDS: AtomicI64 = AtomicI64::new(0);
+static WRITE_GUARDS: AtomicI64 = AtomicI64::new(0);
+
+thread_local! {
+    static MY_READ_GUARDS: Cell<i64> = const { Cell::new(0) };
+    static MY_WRITE_GUARDS: Cell<i64> = const { Cell::new(0) };
+}
+
+/// Installs (or removes) the process wide callback.
+pub fn set_hook(hook: Option<Arc<Hook>>) {
+    *HOOK.write().unwrap() = hook;
+}
+
+fn current_hook() -> Option<Arc<Hook>> {
+    HOOK.read().unwrap().clone()
+}
+
+/// Next value of the global sequence counter (also usable by a harness).
+pub fn next_seq() -> u64 {
+    SEQ.fetch_add(1, Ordering::SeqCst)
+}
+
+/// (read, write) guards held by the calling thread.
+pub fn my_guards() -> (i64, i64) {
+    (
+        MY_READ_GUARDS.with(|c| c.get()),
+        MY_WRITE_GUARDS.with(|c| c.get()),
+    )
+}
+
+/// (read, write) guards held by all threads.
+pub fn all_guards() -> (i64, i64) {
+    (
+        READ_GUARDS.load(Ordering::SeqCst),
+        WRITE_GUARDS.load(Ordering::SeqCst),
+    )
+}
+
+fn never() -> bool {
+    false
+}
+
+/// A yield point in front of an access to shared state.
+pub fn yield_point(site: &'static str, key: Option<&[u8]>, would_block: &dyn Fn() -> bool) {
+    if let Some(hook) = current_hook() {
+        hook(&Event {
+            pre: true,
+            site,
+            key,
+            nums: [0; 4],
+            seq: next_seq(),
+            would_block,
+        });
+    }
+}
+
+/// A yield point in front of an access that never blocks (atomics).
+pub fn yield_atomic(site: &'static str) {
+    yield_point(site, None, &never)
+}
+
+/// A plain notification.
+pub fn note(site: &'static str, key: Option<&[u8]>, nums: [u64; 4]) {
+    if let Some(hook) = current_hook() {
+        hook(&Event {
+            pre: false,
+            site,
+            key,
+            nums,
+            seq: next_seq(),
+            would_block: &never,
+        });
+    }
+}
+
+fn guard_add(write: bool, delta: i64) {
+    if write {
+        WRITE_GUARDS.fetch_add(delta, Ordering::SeqCst);
+        MY_WRITE_GUARDS.with(|c| c.set(c.get() + delta));
+    } else {
+        READ_GUARDS.fetch_add(delta, Ordering::SeqCst);
+        MY_READ_GUARDS.with(|c| c.set(c.get() + delta));
+    }
+}
+
+/// Shared reference into the map, registered while alive.
+pub struct TracedRef<'a, K: Eq + Hash, V> {
+    inner: Ref<'a, K, V>,
+}
+
+impl<'a, K: Eq + Hash, V> TracedRef<'a, K, V> {
+    pub fn key(&self) -> &K {
+        self.inner.key()
+    }
+    pub fn value(&self) -> &V {
+        self.inner.value()
+    }
+}
+
+impl<'a, K: Eq + Hash, V> Deref for TracedRef<'a, K, V> {
+    type Target = V;
+    fn deref(&self) -> &V {
+        self.inner.value()
+    }
+}
+
+impl<'a, K: Eq + Hash, V> Drop for TracedRef<'a, K, V> {
+    fn drop(&mut self) {
+        guard_add(false, -1);
+    }
+}
+
+/// Exclusive reference into the map, registered while alive.
+pub struct TracedRefMut<'a, K: Eq + Hash, V> {
+    inner: RefMut<'a, K, V>,
+}
+
+impl<'a, K: Eq + Hash, V> TracedRefMut<'a, K, V> {
+    pub fn key(&self) -> &K {
+        self.inner.key()
+    }
+    pub fn value(&self) -> &V {
+        self.inner.value()
+    }
+    pub fn value_mut(&mut self) -> &mut V {
+        self.inner.value_mut()
+    }
+}
+
+impl<'a, K: Eq + Hash, V> Deref for TracedRefMut<'a, K, V> {
+    type Target = V;
+    fn deref(&self) -> &V {
+        self.inner.value()
+    }
+}
+
+impl<'a, K: Eq + Hash, V> DerefMut for TracedRefMut<'a, K, V> {
+    fn deref_mut(&mut self) -> &mut V {
+        self.inner.value_mut()
+    }
+}
+
+impl<'a, K: Eq + Hash, V> Drop for TracedRefMut<'a, K, V> {
+    fn drop(&mut self) {
+        guard_add(true, -1);
+    }
+}
+
+/// `DashMap` with a yield point in front of every access the store makes.
+/// Methods that are not mirrored here are reached through `Deref`.
+pub struct TracedMap<K: Eq + Hash, V> {
+    inner: DashMap<K, V>,
+}
+
+impl<K: Eq + Hash + AsRef<[u8]>, V> TracedMap<K, V> {
+    #[allow(clippy::new_without_default)]
+    pub fn new() -> Self {
+        TracedMap {
+            inner: DashMap::new(),
+        }
+    }
+
+    /// Would an access needing the shard of `key` block right now?
+    fn key_blocked(&self, key: &K, write: bool) -> bool {
+        if write {
+            self.inner.try_get_mut(key).is_locked()
+        } else {
+            self.inner.try_get(key).is_locked()
+        }
+    }
+
+    /// Would an access needing every shard block right now?  Exact for the
+    /// guards handed out by this wrapper: readers are only stopped by a live
+    /// exclusive guard, writers by any live guard.
+    fn all_blocked(&self, write: bool) -> bool {
+        let (r, w) = all_guards();
+        if write {
+            r + w > 0
+        } else {
+            w > 0
+        }
+    }
+
+    pub fn get(&self, key: &K) -> Option<TracedRef<'_, K, V>> {
+        yield_point("map.get", Some(key.as_ref()), &|| {
+            self.key_blocked(key, false)
+        });
+        self.inner.get(key).map(|inner| {
+            guard_add(false, 1);
+            TracedRef { inner }
+        })
+    }
+
+    pub fn get_mut(&self, key: &K) -> Option<TracedRefMut<'_, K, V>> {
+        yield_point("map.get_mut", Some(key.as_ref()), &|| {
+            self.key_blocked(key, true)
+        });
+        self.inner.get_mut(key).map(|inner| {
+            guard_add(true, 1);
+            TracedRefMut { inner }
+        })
+    }
+
+    pub fn insert(&self, key: K, value: V) -> Option<V> {
+        yield_point("map.insert", Some(key.as_ref()), &|| {
+            self.key_blocked(&key, true)
+        });
+        self.inner.insert(key, value)
+    }
+
+    pub fn remove(&self, key: &K) -> Option<(K, V)> {
+        yield_point("map.remove", Some(key.as_ref()), &|| {
+            self.key_blocked(key, true)
+        });
+        self.inner.remove(key)
+    }
+
+    pub fn remove_if(&self, key: &K, f: impl FnOnce(&K, &V) -> bool) -> Option<(K, V)> {
+        yield_point("map.remove_if", Some(key.as_ref()), &|| {
+            self.key_blocked(key, true)
+        });
+        self.inner.remove_if(key, f)
+    }
+
+    pub fn contains_key(&self, key: &K) -> bool {
+        yield_point("map.contains_key", Some(key.as_ref()), &|| {
+            self.key_blocked(key, false)
+        });
+        self.inner.contains_key(key)
+    }
+
+    pub fn entry(&self, key: K) -> Entry<'_, K, V> {
+        yield_point("map.entry", Some(key.as_ref()), &|| {
+            self.key_blocked(&key, true)
+        });
+        self.inner.entry(key)
+    }
+
+    pub fn alter(&self, key: &K, f: impl FnOnce(&K, V) -> V) {
+        yield_point("map.alter", Some(key.as_ref()), &|| {
+            self.key_blocked(key, true)
+        });
+        self.inner.alter(key, f)
+    }
+
+    pub fn alter_all(&self, f: impl FnMut(&K, V) -> V) {
+        yield_point("map.alter_all", None, &|| self.all_blocked(true));
+        self.inner.alter_all(f)
+    }
+
+    pub fn retain(&self, f: impl FnMut(&K, &mut V) -> bool) {
+        yield_point("map.retain", None, &|| self.all_blocked(true));
+        self.inner.retain(f)
+    }
+
+    pub fn clear(&self) {
+        yield_point("map.clear", None, &|| self.all_blocked(true));
+        self.inner.clear()
+    }
+
+    pub fn iter(&self) -> Iter<'_, K, V> {
+        yield_point("map.iter", None, &|| self.all_blocked(false));
+        self.inner.iter()
+    }
+
+    pub fn len(&self) -> usize {
+        yield_point("map.len", None, &|| self.all_blocked(false));
+        self.inner.len()
+    }
+
+    pub fn is_empty(&self) -> bool {
+        yield_point("map.is_empty", None, &|| self.all_blocked(false));
+        self.inner.is_empty()
+    }
+
+    pub fn into_read_only(self) -> ReadOnlyView<K, V> {
+        self.inner.into_read_only()
+    }
+}
+
+impl<K: Eq + Hash + Clone + AsRef<[u8]>, V: Clone> Clone for TracedMap<K, V> {
+    fn clone(&self) -> Self {
+        yield_point("map.clone", None, &|| self.all_blocked(false));
+        TracedMap {
+            inner: self.inner.clone(),
+        }
+    }
+}
+
+impl<K: Eq + Hash, V> Deref for TracedMap<K, V> {
+    type Target = DashMap<K, V>;
+    fn deref(&self) -> &DashMap<K, V> {
+        &self.inner
+    }
+}
